@@ -97,8 +97,12 @@ func (g *ExecutionGraph) To(name string) []string {
 }
 
 func (g *ExecutionGraph) cycleDfs(t string, visited map[string]bool) error {
-	if visited[t] {
-		return ErrCycleDetected
+	// visited[t] is true while t is on the current path and false once t has been fully explored
+	if onPath, seen := visited[t]; seen {
+		if onPath {
+			return ErrCycleDetected
+		}
+		return nil
 	}
 	visited[t] = true
 
@@ -108,6 +112,7 @@ func (g *ExecutionGraph) cycleDfs(t string, visited map[string]bool) error {
 			return err
 		}
 	}
+	visited[t] = false
 
 	return nil
 }
